@@ -428,13 +428,25 @@ func (c *Ctx) instantiatedText(o *Obligation, hints []*Term) string {
 	for _, d := range ic.decls {
 		sb.WriteString(d + "\n")
 	}
-	for _, f := range ic.qf {
-		sb.WriteString("(assert " + f.String() + ")\n")
-	}
+	var hintsOut []*Term
 	if c.mode == ModeInt {
-		for _, h := range modHints(ic.qf) {
-			sb.WriteString("(assert " + h.String() + ")\n")
+		hintsOut = modHints(ic.qf)
+	}
+	used := map[string]bool{}
+	body := make([]*Term, 0, len(ic.qf)+len(hintsOut))
+	for _, f := range ic.qf {
+		body = append(body, abstractSymbolicMod(f, used))
+	}
+	for _, h := range hintsOut {
+		body = append(body, abstractSymbolicMod(h, used))
+	}
+	for _, op := range []string{"udiv", "umod", "utdiv", "utmod"} {
+		if used[op] {
+			sb.WriteString("(declare-fun " + op + " (Int Int) Int)\n")
 		}
+	}
+	for _, f := range body {
+		sb.WriteString("(assert " + f.String() + ")\n")
 	}
 	sb.WriteString("(check-sat)\n")
 	return sb.String()
